@@ -385,17 +385,19 @@ func augmentOriginalFile(file *ast.File, overrides map[string]overrideInfo) {
 				// of its specification (iota) or on the preceding specifications
 				// (implicit repetition), so the overridden names are blanked
 				// and the specifications are kept, unless nothing is left.
-				allBlank := true
+				allBlank, changed := true, false
 				for _, spec := range d.Specs {
 					for _, name := range spec.(*ast.ValueSpec).Names {
 						if _, ok := overrides[name.Name]; ok {
 							anyChange = true
+							changed = true
 							name.Name = `_`
 						}
 						allBlank = allBlank && name.Name == `_`
 					}
 				}
-				if allBlank {
+				if allBlank && changed {
+					// A group that was blank to begin with is not touched.
 					file.Decls[i] = nil
 				}
 				continue
